@@ -177,7 +177,10 @@ LocaleCharset(lcall, lctype, lang) ==
 
 LocaleStep(e) ==
     LET want == LocaleCharset(e.lc_all, e.lc_ctype, e.lang) IN
-    <<st, (IF e.initerr # "" THEN {}           \* a codeset name no encoding is registered under: Init refuses, nothing to compare
+    <<st, (IF e.initerr # "" THEN
+               \* a codeset name no encoding is registered under: Init refuses, nothing to compare - except for the names
+               \* tcell always knows (UTF-8, utf8, US-ASCII, ASCII, ISO646, any case), asked for by the bare harness
+               (IF "always" \in DOMAIN e /\ e.always THEN {Dev("C11.locale", "builtin_charset_refused", <<e.lc_all, e.lc_ctype, e.lang, e.initerr>>)} ELSE {})
            ELSE IF e.charset = want THEN {}
            ELSE {Dev("C11.locale", "charset", <<e.lc_all, e.lc_ctype, e.lang, e.charset, want>>)})
           \cup (IF e.initerr = "" /\ e.registered /\ e.got # e.src
